@@ -40,6 +40,127 @@ pub trait KeyColl: KeyExpCollection<XKey, i32, u64> + IntoArray<i32, u64> + Size
     fn key_at(&self, slot: u32) -> XKey;
     fn val_at(&self, slot: u32) -> u64;
     fn entries(&self) -> Vec<(XKey, u64)>;
+    /// the export and the capacity of the vector the library returned
+    fn export(self, t: i32) -> (Vec<u64>, usize) {
+        let v = self.into_ordered_vec(t);
+        let c = v.capacity();
+        (v, c)
+    }
+}
+
+/// 160-byte plain value (`Copy`): every word is derived from the serial number, so a torn or mixed-up
+/// copy is visible; implementations may treat wide values differently from narrow ones
+#[derive(Clone, Copy, Debug, PartialEq)]
+pub struct KBig(pub [u64; 20]);
+
+impl KBig {
+    pub fn of(s: u64) -> Self {
+        let mut a = [0u64; 20];
+        for (i, x) in a.iter_mut().enumerate() {
+            *x = s.rotate_left(3 * i as u32) ^ (i as u64).wrapping_mul(0x9E37_79B9_7F4A_7C15);
+        }
+        a[0] = s;
+        KBig(a)
+    }
+    pub fn serial(&self) -> u64 {
+        if *self == KBig::of(self.0[0]) {
+            self.0[0]
+        } else {
+            0xBAD0_BAD0_BAD0_BAD0
+        }
+    }
+}
+
+/// the expiring-key collections instantiated with `KBig` values behind the `u64` interface the
+/// interpreter speaks
+pub struct WideVal<T>(pub T);
+
+macro_rules! wide_val {
+    ($t:ident, $is_tree:expr, $name:expr) => {
+        impl KeyExpCollection<XKey, i32, u64> for WideVal<$t<XKey, i32, KBig>> {
+            fn is_empty(&self) -> bool {
+                self.0.is_empty()
+            }
+            fn insert(&mut self, key: XKey, val: u64, time: i32) {
+                self.0.insert(key, KBig::of(val), time)
+            }
+            fn get_value(&mut self, time: i32, key: XKey) -> Option<u64> {
+                self.0.get_value(time, key).map(|v| v.serial())
+            }
+            fn first_less(&mut self, time: i32, default: u64, key: XKey) -> u64 {
+                self.0.first_less(time, KBig::of(default), key).serial()
+            }
+            fn first_less_or_equal(&mut self, time: i32, default: u64, key: XKey) -> u64 {
+                self.0.first_less_or_equal(time, KBig::of(default), key).serial()
+            }
+            fn first_less_or_equal_by<F>(&mut self, time: i32, default: u64, f: F) -> u64
+            where
+                F: Fn(XKey) -> std::cmp::Ordering,
+            {
+                self.0.first_less_or_equal_by(time, KBig::of(default), f).serial()
+            }
+            fn clear(&mut self) {
+                self.0.clear()
+            }
+        }
+        impl IntoArray<i32, u64> for WideVal<$t<XKey, i32, KBig>> {
+            fn into_ordered_vec(self, time: i32) -> Vec<u64> {
+                self.0.into_ordered_vec(time).iter().map(|v| v.serial()).collect()
+            }
+        }
+    };
+}
+wide_val!(KeyExpTree, true, "KeyExpTree<KBig>");
+wide_val!(KeyExpList, false, "KeyExpList<KBig>");
+
+impl KeyColl for WideVal<KeyExpTree<XKey, i32, KBig>> {
+    const IS_TREE: bool = true;
+    const NAME: &'static str = "KeyExpTree (160-byte values)";
+    fn make(cap: usize) -> Self {
+        WideVal(KeyExpTree::new(cap))
+    }
+    fn snap(&self) -> Option<VerifSnapshot> {
+        Some(self.0.verif_snapshot())
+    }
+    fn key_at(&self, slot: u32) -> XKey {
+        self.0.verif_key_at(slot)
+    }
+    fn val_at(&self, slot: u32) -> u64 {
+        self.0.verif_val_at(slot).serial()
+    }
+    fn entries(&self) -> Vec<(XKey, u64)> {
+        Vec::new()
+    }
+    fn export(self, t: i32) -> (Vec<u64>, usize) {
+        let v = self.0.into_ordered_vec(t);
+        let c = v.capacity();
+        (v.iter().map(|x| x.serial()).collect(), c)
+    }
+}
+
+impl KeyColl for WideVal<KeyExpList<XKey, i32, KBig>> {
+    const IS_TREE: bool = false;
+    const NAME: &'static str = "KeyExpList (160-byte values)";
+    fn make(cap: usize) -> Self {
+        WideVal(KeyExpList::new(cap))
+    }
+    fn snap(&self) -> Option<VerifSnapshot> {
+        None
+    }
+    fn key_at(&self, _slot: u32) -> XKey {
+        unreachable!()
+    }
+    fn val_at(&self, _slot: u32) -> u64 {
+        unreachable!()
+    }
+    fn entries(&self) -> Vec<(XKey, u64)> {
+        self.0.verif_entries().into_iter().map(|(k, v)| (k, v.serial())).collect()
+    }
+    fn export(self, t: i32) -> (Vec<u64>, usize) {
+        let v = self.0.into_ordered_vec(t);
+        let c = v.capacity();
+        (v.iter().map(|x| x.serial()).collect(), c)
+    }
 }
 
 impl KeyColl for KeyExpTree<XKey, i32, u64> {
@@ -1142,13 +1263,13 @@ impl<'a, C: KeyColl> KeyRun<'a, C> {
         let expected: Vec<u64> = self.model.live_sorted(t).iter().map(|e| e.serial).collect();
         let coll = self.coll.take().unwrap();
         let budget = budget_for(stored_n.max(self.inserted_since_clear) + 8) * 4 + 64 * stored_n.max(self.inserted_since_clear) as u64;
-        let (r, calls, _) = lib_call(None, budget, false, move || coll.into_ordered_vec(t));
+        let (r, calls, _) = lib_call(None, budget, false, move || coll.export(t));
         self.out.callbacks.push(calls);
-        let got = match r {
+        let (got, got_capacity) = match r {
             Ok(v) => v,
             Err(e) => return self.on_call_err(i, e, &[7, 13, 19], "into_ordered_vec"),
         };
-        trace!(self, "#{} into_ordered_vec(t={}) -> {:?} (model {:?}), capacity {}", i, t, fmt_vals(&got), fmt_vals(&expected), got.capacity());
+        trace!(self, "#{} into_ordered_vec(t={}) -> {:?} (model {:?}), capacity {}", i, t, fmt_vals(&got), fmt_vals(&expected), got_capacity);
         let pn = if self.is_list_variant { 13 } else { 7 };
         if self.rc.obs(pn) || (self.is_list_variant && self.rc.obs(7)) {
             self.out.observations += 1;
@@ -1167,8 +1288,8 @@ impl<'a, C: KeyColl> KeyRun<'a, C> {
             if stored_n >= 12 {
                 self.out.class("export_cap_ge_12");
             }
-            if got.capacity() > bound {
-                self.out.fail(19, "export-capacity", i, format!("{}: into_ordered_vec returned a vector of capacity {} for {} stored entries ({} exported, hint {}); bound {}", C::NAME, got.capacity(), stored_n, got.len(), self.cap, bound));
+            if got_capacity > bound {
+                self.out.fail(19, "export-capacity", i, format!("{}: into_ordered_vec returned a vector of capacity {} for {} stored entries ({} exported, hint {}); bound {}", C::NAME, got_capacity, stored_n, got.len(), self.cap, bound));
                 return Step::Stop;
             }
         }
